@@ -1,3 +1,4 @@
+import TinysetModel.Proofs.AllocFault
 import TinysetModel.Proofs.TotalSites
 import TinysetModel.Proofs.Total32Insert
 import TinysetModel.Proofs.Plain2
@@ -112,6 +113,31 @@ example : (match insertT cfg64 true (⟨fun d _ _ => (200, d)⟩ : Rng Unit) 3 (
     | .ok ((_, tr), _) => tr.map (fun s =>
         ((match s with | .heap sz cap bits a => (sz, cap, bits, a.toList) | _ => (0, 0, 0, [])), elems cfg64 s))
     | .error _ => []) = [((4, 4, 200, [200, 5, 6, 7]), [0, 5, 6, 7])] := by decide +kernel
+
+/-! ### the fault points are the allocator calls -/
+
+/-- the requests the failure-state reading enumerates are exactly the `alloc_zeroed` calls of the allocator-call
+reading of the same run (`Model/Alloc.lean`, compared call by call with the real allocator's record): same result,
+same generator state, same number — every input, generator and fuel, both set types -/
+theorem requests_are_the_alloc_calls {D : Type} (c : Cfg) (fresh : Bool) (g : Rng D) (fuel : Nat) {r : Rp} {e : Nat} {d d1 : D}
+    {res : Rp × Bool} {t : Tr} (h : insertT c fresh g fuel r e d = .ok ((res, t), d1)) :
+    ∃ evs, insertE c fresh g fuel r e d = .ok ((res, evs), d1) ∧ t.length = nAlloc evs :=
+  insertT_insertE c fresh g fuel h
+
+/-- hence: every insert into a well-formed SetU64 calls `alloc_zeroed` at most once (and every such call is a fault
+point the failure-state theorem covers) -/
+theorem insert_allocates_at_most_once_u64 {D : Type} (g : Rng D) {r : Rp} (wf : WF cfg64 r) (e : Nat) (he : e < 2 ^ 64)
+    (hsize : capacity r + 64 + 3 ≤ 2 ^ 64 ∧ 3 * len r + 4 + 64 + 3 ≤ 2 ^ 64) (d : D) :
+    ∃ res evs d', insertE cfg64 true g 3 r e d = .ok ((res, evs), d') ∧ nAlloc evs ≤ 1 := by
+  obtain ⟨r', b, tr, d', hT, _, hlen, _⟩ := failure_states_u64 g wf e he hsize d
+  obtain ⟨evs, hE, hn⟩ := insertT_insertE cfg64 true g 3 hT
+  exact ⟨_, evs, d', hE, by omega⟩
+theorem insert_allocates_at_most_once_u32 {D : Type} (g : Rng D) {r : Rp} (wf : WF cfg32 r) (e : Nat) (he : e < 2 ^ 32)
+    (hsize : capacity r + 32 + 3 ≤ 2 ^ 32 ∧ 3 * len r + 4 + 32 + 3 ≤ 2 ^ 32) (d : D) :
+    ∃ res evs d', insertE cfg32 false g 3 r e d = .ok ((res, evs), d') ∧ nAlloc evs ≤ 1 := by
+  obtain ⟨r', b, tr, d', hT, _, hlen, _⟩ := failure_states_u32 g wf e he hsize d
+  obtain ⟨evs, hE, hn⟩ := insertT_insertE cfg32 false g 3 hT
+  exact ⟨_, evs, d', hE, by omega⟩
 
 end C14
 
